@@ -1,5 +1,8 @@
 mod c14;
+mod c15;
+mod c19;
 mod choices;
+mod cli;
 mod engine;
 mod lexgen;
 mod reflex;
@@ -8,7 +11,7 @@ use engine::*;
 
 fn checks() -> Vec<Box<dyn Check>>
 {
-	vec![Box::new(c14::C14)]
+	vec![Box::new(c14::C14), Box::new(c15::C15), Box::new(c19::C19)]
 }
 
 fn main()
